@@ -298,7 +298,7 @@ class Fn:
             if e[2] is not None:
                 base = "(skipn (Z.to_nat %s) %s)" % (self.ex(e[2], env), base)
                 if e[3] is not None:
-                    raise Unsupported("slice with both bounds")
+                    return "(firstn (Z.to_nat (%s - %s)) %s)" % (self.ex(e[3], env), self.ex(e[2], env), base)
                 return base
             if e[3] is not None:
                 return "(firstn (Z.to_nat %s) %s)" % (self.ex(e[3], env), base)
@@ -316,6 +316,8 @@ class Fn:
             dst_t = norm_type(e[2])
             if src_t in WIDTH and dst_t in WIDTH and WIDTH[src_t] <= WIDTH[dst_t]:
                 return self.ex(e[1], env)
+            if src_t in WIDTH and dst_t == "u32" and self.spec.get("narrow_u32"):
+                return "(%s %s)" % (self.spec["narrow_u32"], self.ex(e[1], env))
             raise Unsupported("cast %s as %s" % (src_t, dst_t))
         if k == "bin":
             op, l, r = e[1], e[2], e[3]
@@ -719,6 +721,16 @@ class Fn:
 
         def after(env_):
             return self.stmts(rest, tl, env_, ctx)
+        if k == "cfg":
+            # accepted only when, with the feature on or off, the result is the same: a block of `tracing::Span::current().record(..)`
+            inner = s[2]
+            ok_ = False
+            if s[1].replace(" ", "") == 'cfg(feature="tracing")' and inner[0] == "expr" and inner[1][0] == "block" and inner[1][2] is None:
+                ok_ = all(x[0] == "expr" and x[1][0] == "mcall" and x[1][2] == "record" and x[1][1] == ("call", ("path", ["tracing", "Span", "current"]), [])
+                          for x in inner[1][1])
+            if not ok_:
+                raise Unsupported("statement under #[%s]" % s[1])
+            return after(env)
         if k == "let" and s[1][0] == "pbind" and s[3] is not None and s[3][0] == "repeat" and s[3][1] == ("num", 0) and s[3][2][0] == "num" and self.spec.get("read_exact"):
             # `let mut m = [0u8; N];` - a buffer that a following `r.read_exact(&mut m)?` fills
             self.buffers[s[1][1]] = s[3][2][1]
@@ -1521,6 +1533,49 @@ def functions():
     out.append(("patch", "src/sync.rs CopiaSync::patch", None, t_patch("src/sync.rs", "Sync for CopiaSync", "g_patch", "CopiaSync")))
     out.append(("async_patch", "src/async_sync.rs AsyncCopiaSync::patch", None, t_patch("src/async_sync.rs", "AsyncCopiaSync", "g_async_patch", "AsyncCopiaSync")))
 
+    DELTA_READ = "{ let mut source_data = Vec::new(); source.read_to_end(&mut source_data)?; }"
+
+    def t_delta(path, within, gname, self_type):
+        def go():
+            src = read(path)
+            params, ret, body = R.find_fn(src, "delta", within)
+            norm = lambda x: json.loads(json.dumps(x))
+            def strip_await(n):
+                if isinstance(n, tuple):
+                    if len(n) == 3 and n[0] == "field" and n[2] == "await":
+                        return strip_await(n[1])
+                    return tuple(strip_await(x) for x in n)
+                if isinstance(n, list):
+                    return [strip_await(x) for x in n]
+                return n
+            want = R.Parser(R.tokenize(DELTA_READ)).block()[1]
+            stmts = list(body[1])
+            idx = next((i for i in range(len(stmts)) if norm(strip_await(stmts[i:i + 2])) == norm(want)), None)
+            if idx is None:
+                raise Unsupported("delta: the source is no longer read whole by `let mut source_data = Vec::new(); source.read_to_end(&mut source_data)?;`")
+            del stmts[idx:idx + 2]
+            if [n for n, _ in params] != ["self", "source", "signature"]:
+                raise Unsupported("signature of delta is %s" % params)
+            spec = dict(try_transparent=True, exact_arith=True, narrow_u32="w32",
+                        fields={("Signature", "block_size"): ("(s_block_size _ {0})", "usize"), ("Signature", "file_size"): ("(s_file_size _ {0})", "u64"),
+                                ("BlockSignature", "index"): ("(b_idx _ {0})", "u32")},
+                        calls={"SignatureTable::from_signature": ("s_blocks _ {0}", "Vec<BlockSignature>"), "StrongHash::compute": ("H {0}", "StrongHash"),
+                               "Delta::with_checksum": ("Build_delta digest {0} {1} {2} [] {3}", "Delta"), ".min": ("Z.min {0} {1}", "usize"),
+                               "FastRollingChecksum::new": ("frc_new {0}", "Rolling"), ".digest": ("frc_digest {0}", "u32"),
+                               ".has_weak_match": ("has_weak digest {0} {1}", "bool"),
+                               ".find_match": ("find_match digest H deq {0} {1} {2}", "Option<BlockSignature>")},
+                        updates={"delta.push_copy": "dpush_copy {0} {1} {2}", "delta.push_literal": "dpush_lit {0} {1}",
+                                 "delta.push_literal_byte": "dpush_lit_byte {0} {1}", "rolling.roll": "frc_roll {0} {1} {2}"},
+                        rename={"self": "tt"}, ok=lambda s_: "dfinish " + paren(s_))
+            fn = Fn(dict(spec, self_type=self_type))
+            env = {"self": self_type, "signature": "Signature", "source_data": "Vec<u8>"}
+            top = Ctx(val=(lambda x: "Some " + paren(x)), ret=(lambda x: "Some " + paren(x)), fall=None)
+            text = fn.block(("block", stmts, body[2]), env, top)
+            return "Definition %s (fuel : nat) (signature : Delta.signature digest) (source_data : list Z) : option (Delta.delta digest) :=\n  %s." % (gname, text)
+        return go
+    out.append(("delta", "src/sync.rs CopiaSync::delta", None, t_delta("src/sync.rs", "Sync for CopiaSync", "g_delta", "CopiaSync")))
+    out.append(("async_delta", "src/async_sync.rs AsyncCopiaSync::delta", None, t_delta("src/async_sync.rs", "AsyncCopiaSync", "g_async_delta", "AsyncCopiaSync")))
+
     def t_safe_join():
         src = read("src/bin/copia/serve.rs")
         spec = dict(signature=[("root", "Path"), ("rel", "str")],
@@ -1554,6 +1609,7 @@ GROUPS = {
     "Plan": ("Model.Glob Model.Plan", False, ["needs_transfer", "glob_match", "is_excluded", "build_plan"]),
     "Protocol": ("Model.Checksum Model.Delta Model.Protocol", False, ["from_u8", "hvalidate"]),
     "DeltaV": ("Model.Checksum Model.Delta", True, ["delta_validate"]),
+    "Scan": ("Model.Checksum Model.Delta", "scan", ["delta", "async_delta"]),
     "Patch": ("Model.Checksum Model.Delta Gen.DeltaVGen", "patch", ["patch", "async_patch"]),
     "SafeJoin": ("Model.SafeJoin", False, ["safe_join"]),
 }
@@ -1617,6 +1673,15 @@ def main():
         elif digest == "patch":
             body += ("\nSection WithDigest.\nVariable digest : Type.\nVariable H : list Z -> digest.\nVariable deq : forall x y : digest, {x = y} + {x <> y}.\n"
                      "Notation presult := Delta.presult.\nNotation read := Delta.read.\nNotation out_len := Delta.out_len.\n\n" + "\n".join(texts) + "End WithDigest.\n")
+        elif digest == "scan":
+            body += ("\nSection WithDigest.\nVariable digest : Type.\nVariable H : list Z -> digest.\nVariable deq : forall x y : digest, {x = y} + {x <> y}.\n"
+                     "Notation ddelta := (Delta.delta digest).\n"
+                     "(* while it is built the delta keeps its operations newest first as push_copy / push_lit of Model/Delta.v expect; Ok(delta) puts them in order *)\n"
+                     "Definition dset (d : ddelta) (ops : list dop) : ddelta := Build_delta digest (d_block_size _ d) (d_source_size _ d) (d_basis_size _ d) ops (d_checksum _ d).\n"
+                     "Definition dpush_copy (d : ddelta) (off len : Z) : ddelta := dset d (push_copy (d_ops _ d) off len).\n"
+                     "Definition dpush_lit (d : ddelta) (x : list Z) : ddelta := dset d (push_lit (d_ops _ d) x).\n"
+                     "Definition dpush_lit_byte (d : ddelta) (x : Z) : ddelta := dset d (push_lit_byte (d_ops _ d) x).\n"
+                     "Definition dfinish (d : ddelta) : ddelta := dset d (rev (d_ops _ d)).\n\n" + "\n".join(texts) + "End WithDigest.\n")
         elif digest == "archivesys":
             body = (HEADER % (group, imports)) + "\nSection WithFs.\nVariable path_exists : apath -> bool.   (* path.exists() *)\n\n" + "\n".join(texts) + "End WithFs.\n"
         elif digest == "onewaysys":
